@@ -180,7 +180,34 @@ _reg(GAPI, "rule_get_precedence", "ctpg::detail::rule::get_precedence", "the exp
 _reg(GAPI, "dfab_transition_char", R + "dfa_builder::transition", "new state appended, from --c--> it", ptypes={"1": "char"}, nparams=2)
 _reg(GAPI, "dfasz_prim", R + "dfa_size_analyzer::prim", "two states per primary")
 
+# ---------------------------------------------------------------- how grammar objects are built (constructors, operators)
+GAPI2 = []
+_reg(GAPI2, "ctor_term", "ctpg::term::term", "stores precedence and associativity", nparams=2)
+_reg(GAPI2, "ctor_char_term", "ctpg::char_term::char_term", "base term(precedence, a), the character, its printable name as id", nparams=3)
+_reg(GAPI2, "ctor_string_term", "ctpg::string_term::string_term", "base term(precedence, a), copies the string", nparams=3)
+_reg(GAPI2, "ctor_regex_term", "ctpg::regex_term::regex_term", "base term(precedence, a), custom name, id = r_ + pattern", nparams=3)
+_reg(GAPI2, "ctor_custom_term", "ctpg::custom_term::custom_term", "base term(precedence, a), name and functor", nparams=4)
+_reg(GAPI2, "ctor_typed_term", "ctpg::typed_term::typed_term", "wraps the term, stores the functor", nparams=2)
+_reg(GAPI2, "ctor_nterm", "ctpg::nterm::nterm", "stores the name; an empty name is refused", nparams=1)
+_reg(GAPI2, "nterm_call", "ctpg::nterm::operator()", "a rule without functor: this nterm on the left, the arguments as right side")
+_reg(GAPI2, "make_term_char", "ctpg::detail::make_term", "char -> char_term(c)", ptypes={"0": "=char"}, nparams=1)
+_reg(GAPI2, "make_term_str", "ctpg::detail::make_term", "string literal -> string_term(str)", ptypes={"0": "const char (&)"})
+_reg(GAPI2, "make_rule_item_nterm", "ctpg::detail::make_rule_item", "an nterm stays", ptypes={"0": "nterm"})
+_reg(GAPI2, "rule_op_ge", "ctpg::detail::rule::operator>=", "same rule with the functor, not contextual, precedence kept")
+_reg(GAPI2, "rule_op_ctx", "ctpg::detail::rule::operator>>=", "same rule with the functor, contextual, precedence kept")
+_reg(GAPI2, "rule_op_prec", "ctpg::detail::rule::operator[]", "same rule with the explicit precedence")
+_reg(GAPI2, "ctor_rule4", "ctpg::detail::rule::rule", "functor, left, right, precedence", nparams=4)
+_reg(GAPI2, "ctor_rule2", "ctpg::detail::rule::rule", "no functor, left, right, precedence 0", nparams=2)
+_reg(GAPI2, "ctor_term_value", "ctpg::term_value::term_value", "moves the value in, stores the source point", nparams=2)
+_reg(GAPI2, "ctor_recognized_term", "ctpg::recognized_term::recognized_term", "term index and length", nparams=2)
+_reg(GAPI2, "ctor_dfa_state", R + "dfa_state::dfa_state", "all transitions and priority slots uninitialised")
+_reg(GAPI2, "ctor_char_range", R + "char_range::char_range", "start and end", nparams=2)
+_reg(GAPI2, "ctor_parse_state", "ctpg::detail::parse_state::parse_state", "binds the stacks, stream and reductors; position at the "
+     "beginning, no pending term, normal mode")
+_reg(GAPI2, "ctor_value_reductors", "ctpg::detail::value_reductors::value_reductors", "binds the rule tuple, fills one reductor per rule")
+
 GROUPS = {
+    "GAPI2": GAPI2,
     "CVEC2": CVEC2, "BUFIT": BUFIT, "TVAL": TVAL, "UTIL": UTIL, "GAPI": GAPI,
     "DFAB": DFAB,
     "DIAG": DIAG,
